@@ -522,6 +522,10 @@ HIST_FAMILIES = {
 }
 for _fam in HIST_FAMILIES:
     HIST_FAMILIES[_fam] = HIST_FAMILIES[_fam] + [['__reinit__', 'wide'], ['__reinit__', 'narrow']]
+# the planet the profile was initialised with is updated in place (what a retrieval fitting the mass or the radius
+# does to the one Planet object all components share); the profile is read again without being re-initialised
+HIST_FAMILIES['guillot'] = HIST_FAMILIES['guillot'] + [['__planet__', ['planet_mass', 4.0]],
+                                                       ['__planet__', ['planet_radius', 0.5]]]
 
 
 def hist_make(fam):
@@ -555,12 +559,19 @@ def hist_fn(case):
     grids = {'g0': P, 'wide': np.logspace(7, -4, N), 'narrow': np.logspace(5, 1, N)}
     cur = {'P': P}
 
-    def fresh():
+    pnet = {}
+
+    def fresh(planet=None):
         t = hist_make(fam)
-        t.initialize_profile(Planet(), N, cur['P'])
+        if planet is None:
+            planet = Planet()
+            for n_ in sorted(pnet):
+                planet.fitting_parameters()[n_][3](pnet[n_])
+        t.initialize_profile(planet, N, cur['P'])
         return t
 
-    live = fresh()
+    live_planet = Planet()
+    live = fresh(live_planet)
     hist_eval(live)
     net = {}
     names = []
@@ -568,7 +579,11 @@ def hist_fn(case):
         if name == '__reinit__':
             # the same profile object is initialised again on another pressure grid with the same layer count
             cur['P'] = grids[value]
-            live.initialize_profile(Planet(), N, cur['P'])
+            live.initialize_profile(live_planet, N, cur['P'])
+        elif name == '__planet__':
+            live_planet.fitting_parameters()[value[0]][3](value[1])
+            pnet[value[0]] = value[1]
+            name = value[0]
         else:
             live.fitting_parameters()[name][3](value)
             net[name] = value
